@@ -252,4 +252,185 @@ theorem origOf_fields (c : Cfg) (m : Down) :
     · exact ⟨rfl, rfl, rfl, rfl, fun _ h => h⟩
   · exact ⟨rfl, rfl, rfl, rfl, fun _ h => h⟩
 
+/-! ### case analyses of the decision functions -/
+
+theorem chain_no6 (ans : List RR) : ∀ r ∈ chainOf ans, r.kind = '6' → False := by
+  intro r hr h6
+  have := (List.mem_filter.mp hr).2
+  simp [h6] at this
+
+theorem fallback_props (orig : Down) (copied : Bool) (aq : Nat) :
+    (fallbackReply orig copied aq).kind ≠ .synth ∧ (fallbackReply orig copied aq).kind ≠ .ptr ∧
+    ((fallbackReply orig copied aq).kind ≠ .pass → (fallbackReply orig copied aq).ad = false) ∧
+    (fallbackReply orig copied aq).ans = orig.ans := by
+  cases copied <;> simp [fallbackReply, passReply]
+
+theorem fallback_pass (orig : Down) (copied : Bool) (aq : Nat) (h : (fallbackReply orig copied aq).kind = .pass) :
+    copied = false ∧ (fallbackReply orig copied aq).ans = orig.ans ∧ (fallbackReply orig copied aq).ad = orig.ad ∧
+    (fallbackReply orig copied aq).rcode = orig.rcode := by
+  cases copied <;> simp [fallbackReply, passReply] at h ⊢
+
+/-- a synthesised reply: its exact contents. -/
+theorem synthesise_synth (c : Cfg) (orig : Down) (copied : Bool) (a : AResp)
+    (h : (synthesise c orig copied a).kind = .synth) :
+    a.err = .none ∧ a.rcode = 0 ∧ (synthesise c orig copied a).ad = false ∧ (synthesise c orig copied a).rcode = 0 ∧
+    (synthesise c orig copied a).ans =
+      ((chainOf a.ans).map fun r =>
+        if r.ttl > synthTTL (negativeAAAATTL orig.soas) ((addrsOf a.ans).map (·.ttl))
+        then { r with ttl := synthTTL (negativeAAAATTL orig.soas) ((addrsOf a.ans).map (·.ttl)) } else r) ++
+      synthAAAA c (addrsOf a.ans) (synthTTL (negativeAAAATTL orig.soas) ((addrsOf a.ans).map (·.ttl))) := by
+  have fb := fun aq => (fallback_props orig copied aq).1
+  unfold synthesise at h ⊢
+  cases he : a.err <;> simp only [he] at h ⊢
+  case none =>
+    by_cases hr : (a.rcode != 0) = true
+    · simp [hr] at h
+    · simp only [hr] at h ⊢
+      by_cases he : (addrsOf a.ans).isEmpty = true
+      · simp [he] at h
+      · simp only [he] at h ⊢
+        by_cases hs : (synthAAAA c (addrsOf a.ans) (synthTTL (negativeAAAATTL orig.soas) ((addrsOf a.ans).map (·.ttl)))).isEmpty = true
+        · simp only [hs, if_true] at h
+          exact absurd h (fb 1)
+        · simp only [hs]
+          refine ⟨trivial, by simpa using hr, ?_⟩
+          simp
+  all_goals (first | exact absurd h (fb _) | (simp at h; done))
+
+/-- a pass-through out of `synthesise` is the unfiltered original. -/
+theorem synthesise_pass (c : Cfg) (orig : Down) (copied : Bool) (a : AResp)
+    (h : (synthesise c orig copied a).kind = .pass) :
+    copied = false ∧ (synthesise c orig copied a).ans = orig.ans ∧ (synthesise c orig copied a).ad = orig.ad ∧
+    (synthesise c orig copied a).rcode = orig.rcode := by
+  unfold synthesise at h ⊢
+  cases he : a.err <;> simp only [he] at h ⊢
+  case none =>
+    by_cases hr : (a.rcode != 0) = true
+    · simp [hr] at h
+    · simp only [hr] at h ⊢
+      by_cases he : (addrsOf a.ans).isEmpty = true
+      · simp [he] at h
+      · simp only [he] at h ⊢
+        by_cases hs : (synthAAAA c (addrsOf a.ans) (synthTTL (negativeAAAATTL orig.soas) ((addrsOf a.ans).map (·.ttl)))).isEmpty = true
+        · simp only [hs, if_true] at h ⊢
+          exact fallback_pass orig copied 1 h
+        · simp [hs] at h
+  all_goals (first | exact fallback_pass orig copied _ h | (simp at h; done))
+
+theorem origOf_not_copied (c : Cfg) (m : Down) (h : (origOf c m).2 = false) : (origOf c m).1 = m := by
+  unfold origOf at h ⊢
+  split
+  · split
+    · rename_i h1 h2; simp [h1, h2] at h
+    · rfl
+  · rfl
+
+/-- every outcome of `synthesise` other than a synthesised reply. -/
+theorem synthesise_other (c : Cfg) (orig : Down) (copied : Bool) (a : AResp)
+    (h : (synthesise c orig copied a).kind ≠ .synth) :
+    (synthesise c orig copied a).kind ≠ .ptr ∧
+    ((synthesise c orig copied a).kind ≠ .pass → (synthesise c orig copied a).ad = false) ∧
+    (∀ r ∈ (synthesise c orig copied a).ans, r.kind = '6' → r ∈ orig.ans) := by
+  have fb : ∀ aq, (fallbackReply orig copied aq).kind ≠ .ptr ∧
+      ((fallbackReply orig copied aq).kind ≠ .pass → (fallbackReply orig copied aq).ad = false) ∧
+      (∀ r ∈ (fallbackReply orig copied aq).ans, r.kind = '6' → r ∈ orig.ans) := by
+    intro aq
+    have := fallback_props orig copied aq
+    exact ⟨this.2.1, this.2.2.1, by rw [this.2.2.2]; intro r hr _; exact hr⟩
+  unfold synthesise at h ⊢
+  cases he : a.err <;> simp only [he] at h ⊢
+  case none =>
+    by_cases hr : (a.rcode != 0) = true
+    · simp only [hr, if_true]
+      exact ⟨by simp, by simp, fun r hr h6 => (chain_no6 _ r hr h6).elim⟩
+    · simp only [hr] at h ⊢
+      by_cases he : (addrsOf a.ans).isEmpty = true
+      · simp only [he, if_true]
+        exact ⟨by simp, by simp, fun r hr h6 => (chain_no6 _ r hr h6).elim⟩
+      · simp only [he] at h ⊢
+        by_cases hs : (synthAAAA c (addrsOf a.ans) (synthTTL (negativeAAAATTL orig.soas) ((addrsOf a.ans).map (·.ttl)))).isEmpty = true
+        · simp only [hs, if_true]
+          exact fb 1
+        · simp [hs] at h
+  all_goals (first | exact fb _ | simp)
+
+/-- the four ways `WriteMsg` ends. -/
+theorem writeMsg_cases (c : Cfg) (q : Query) (m : Down) (a : AResp) :
+    (dispatch c q m = .trySynth ∧ writeMsg c q m a = synthesise c (origOf c m).1 (origOf c m).2 a) ∨
+    writeMsg c q m a = passReply m ∨
+    writeMsg c q m a = { kind := .workFail, rcode := 2 } ∨
+    writeMsg c q m a = { kind := .filteredKept, rcode := m.rcode, ad := false, ede4 := ede4After m,
+                         ans := (filterUpstreamAAAA c m.ans).1 } := by
+  cases hd : dispatch c q m with
+  | trySynth => exact Or.inl ⟨rfl, writeMsg_trySynth c q m a hd⟩
+  | passNative s => cases s <;> simp [writeMsg, hd]
+  | _ => simp [writeMsg, hd]
+
+/-- the four ways `ServeDNS` + downstream end. -/
+theorem serve_cases (c : Cfg) (q : Query) (down : Option Down) (a : AResp) :
+    serve c q down a = { kind := .none } ∨
+    (∃ m, down = some m ∧ serve c q down a = passReply m) ∨
+    (gate c q = .ptr ∧ ∃ addr v4, parseIP6ArpaName (canonical q.qname) = some addr ∧ ptrV4 c addr = some v4 ∧
+      serve c q down a = ptrReply "0" v4 a) ∨
+    (gate c q = .wrap ∧ ∃ m, down = some m ∧ serve c q down a = writeMsg c q m a) := by
+  have nextOK : (match down with | none => ({ kind := .none } : Reply) | some m => passReply m) = { kind := .none } ∨
+      (∃ m, down = some m ∧ (match down with | none => ({ kind := .none } : Reply) | some m => passReply m) = passReply m) := by
+    cases down with
+    | none => left; rfl
+    | some m => right; exact ⟨m, rfl, rfl⟩
+  unfold serve
+  cases hg : gate c q with
+  | next =>
+    simp only
+    rcases nextOK with h | h
+    · exact Or.inl h
+    · exact Or.inr (Or.inl h)
+  | ptr =>
+    simp only
+    split
+    · rcases nextOK with h | h
+      · exact Or.inl h
+      · exact Or.inr (Or.inl h)
+    · cases hp : parseIP6ArpaName (canonical q.qname) with
+      | none =>
+        simp only
+        rcases nextOK with h | h
+        · exact Or.inl h
+        · exact Or.inr (Or.inl h)
+      | some addr =>
+        simp only
+        cases hv : ptrV4 c addr with
+        | none =>
+          simp only
+          rcases nextOK with h | h
+          · exact Or.inl h
+          · exact Or.inr (Or.inl h)
+        | some v4 =>
+          simp only
+          exact Or.inr (Or.inr (Or.inl ⟨trivial, addr, v4, rfl, hv, rfl⟩))
+  | wrap =>
+    simp only
+    cases down with
+    | none => exact Or.inl rfl
+    | some m => exact Or.inr (Or.inr (Or.inr ⟨trivial, m, rfl, rfl⟩))
+
+theorem ptrReply_props (qt : String) (v4 : IP) (a : AResp) :
+    (ptrReply qt v4 a).kind ≠ .synth ∧ (ptrReply qt v4 a).kind ≠ .pass ∧ (ptrReply qt v4 a).ad = false ∧
+    (∀ r ∈ (ptrReply qt v4 a).ans, r.kind ≠ '6') ∧
+    ((ptrReply qt v4 a).kind = .ptr → (ptrReply qt v4 a).ans.head? =
+      some { kind := 'c', ttl := 600, owner := qt, target := "x:" ++ String.ofList (inAddrArpa v4) }) := by
+  unfold ptrReply
+  cases a.err <;> simp only
+  case none =>
+    split
+    · refine ⟨by simp, by simp, by simp, ?_, fun _ => by simp [ptrSynthTTL]⟩
+      intro r hr
+      simp only [List.mem_cons, List.mem_filter] at hr
+      rcases hr with rfl | ⟨_, hk⟩
+      · simp
+      · intro h6; simp [h6] at hk
+    · refine ⟨by simp, by simp, by simp, ?_, fun _ => by simp [ptrSynthTTL]⟩
+      intro r hr; simp at hr; subst hr; simp
+  all_goals (refine ⟨by simp, by simp, by simp, ?_, ?_⟩ <;> simp [ptrSynthTTL])
+
 end SdnsVerif.Lemmas.Dns64
